@@ -102,7 +102,14 @@ func normSpace(s string) string { return strings.Join(strings.Fields(s), " ") }
 func (fv *FV) srcFull(n ast.Node) string {
 	var b bytes.Buffer
 	printer.Fprint(&b, fv.w.fset, n)
-	return strings.Join(strings.Fields(b.String()), " ")
+	out := strings.Join(strings.Fields(b.String()), " ")
+	if _, isDecl := n.(*ast.DeclStmt); isDecl {
+		// the printer appends the line comment of a declaration: anchors quote the declaration only
+		if k := strings.Index(out, " //"); k >= 0 {
+			out = strings.TrimSpace(out[:k])
+		}
+	}
+	return out
 }
 
 func (fv *FV) ghostAssignedIn(ord int) map[string]bool {
